@@ -460,6 +460,15 @@ func (g *fsmGen) entries(n int, idx *uint64) []gEntry {
 		if g.leader && g.r.Intn(3) != 0 {
 			g.nextL += uint64(1 + g.r.Intn(3))
 			l := g.nextL
+			if g.r.Intn(8) == 0 {
+				// the recorded leader index is whatever the LAST entry carrying one says: an operator reset (a DUMMY
+				// command with leader index 0) or a re-pointed follower makes it go down
+				l = uint64(g.r.Intn(int(g.nextL)))
+				if g.r.Intn(2) == 0 {
+					l = 0
+				}
+				g.hist.Inc("leader-index-going-down")
+			}
 			c.Leader = &l
 		}
 		es = append(es, gEntry{Idx: *idx, Cmd: c})
